@@ -943,6 +943,30 @@ pub fn generate(profile: &Profile, seed: u64) -> Trace {
         g.single();
     }
 
+    // A fill macro alone exceeds the unit budget of a run, so in the long-line profile
+    // the session would end with the line just filled: add a tail of single keys and
+    // application events that act on the long line (moves, deletions, insertions, redraws, Enter)
+    if g.p.name == "long" {
+        let keep = g.p.clone();
+        g.p.m_fill = 0;
+        g.p.m_type_line = 0;
+        g.p.m_resubmit = 0;
+        g.p.m_recall_edit = 0;
+        g.p.m_walk_insert = 0;
+        g.p.m_partial_tab = 0;
+        g.p.m_term_run = 0;
+        g.p.w_enter = 1;
+        g.p.w_right = g.p.w_right.max(8);
+        g.p.w_left = g.p.w_left.max(8);
+        for _ in 0..g.rng.range(15, 60) {
+            if let Some(ev) = g.app_event(false) {
+                g.items.push(Item::App(ev));
+            }
+            g.single();
+        }
+        g.p = keep;
+    }
+
     // flatten, letting application events land inside key units
     let items = std::mem::take(&mut g.items);
     let mut events: Vec<Event> = Vec::new();
